@@ -206,6 +206,15 @@ def r6(idx, rep):
     c05.r6(idx, Proxy(rep))
     # whether the aborting exception reaches the caller is the 'raise' of the policy of the object that owns the handler
     c05.r2(idx, K.as_rule(rep, "R6", keep=lambda k: "policy source" in k or "do_i_raise" in k))
+    # the failing function's error reaches the handler at all: every exit of Matcher.matches hands the collected errors over
+    from . import matcher_model as MM
+    fm, rows = MM.run_model(idx, max_components=2, with_memo=False)
+    badc = None
+    for row in rows:
+        for aspect, ok, detail in MM.judge(row):
+            if aspect == "clear-errors" and not ok:
+                badc = badc or detail
+    rep.check(badc is None, "R6", f"{fm.file}::Matcher.matches table clear-errors", badc or f"{len(rows)} rows", K.where(fm, fm.node))
     # Result.collect_error keeps every error; errors.json is written from result.errors
     fc, ps = K.sym_result(idx, "Result", "collect_error", args={"error": "E2"}, store={"self._errors": ["E1"]})
     rep.check(len(ps) == 1 and ps[0].final_store.get("self._errors") == ["E1", "E2"], "R6", f"{fc.file}::Result.collect_error appends", f"{ps[0].final_store.get('self._errors')}", K.where(fc, fc.node))
